@@ -158,6 +158,9 @@ def sc_cancel_split(k):
             "0 cycleAtPush %d" % k, "0 root z 7a 2 0 1", "0 inlineReport", "0 child1 y 79 z", "0 drop y", "0 drop z", "0 cycle", "0 cycle", "0 stats"]
 
 
+PARKED_VARIANTS = ("plain", "second-pass", "exit", "default", "other-commit-first", "two")
+
+
 def sc_cancel_parked_elsewhere(variant):
     """D21: cancel() on a thread whose queue is full (the signal is parked there), the root finishes on ANOTHER thread.
     variant 'plain': whole cycles; 'second-pass': the root finishes while a stepped cycle is in its second pass, so the
@@ -166,7 +169,13 @@ def sc_cancel_parked_elsewhere(variant):
     cancelable = 0 if variant == "default" else 1
     p = ["0 spawn", "1 spawn", "0 setReporter %d" % cancelable, "0 touch", "1 touch",
          "0 root r 72 1 0 1", "0 child1 c 63 r", "0 drop c", "0 spam %d" % (CAP + 60), "0 cancel r"]
-    if variant == "second-pass":
+    if variant == "other-commit-first":
+        # a cycle handles the commit of an unrelated trace (and consumes nothing of the note) before the root finishes
+        p += ["1 root q 71 2 0 1", "1 drop q", "0 cycle", "1 drop r", "0 cycle"]
+    elif variant == "two":
+        # two cancelled traces are noted; their roots finish in different cycles
+        p = p[:-2] + ["0 root q 71 2 0 1", "0 spam %d" % (CAP + 60), "0 cancel r", "0 cancel q", "1 drop q", "0 cycle", "1 drop r", "0 cycle"]
+    elif variant == "second-pass":
         p += ["0 cycBegin", "0 cycStep", "0 cycStep", "0 cycStep", "0 cycStep", "1 drop r", "0 cycStep", "0 cycStep", "0 cycStep", "0 cycle"]
     elif variant == "exit":
         p += ["0 exit", "1 drop r", "1 cycle"]
@@ -230,7 +239,7 @@ def check_scenarios(impl_by_tag):
             if sorted(x for x in n if x in "zy") != ["y", "z"]:
                 f.append("the trace started after the queue had drained was not delivered completely: %s" % n)
         if tag.startswith("cancel-parked-") and not tag.endswith("default"):
-            bad = [x for x in n if x in ("r", "c")]
+            bad = [x for x in n if x in ("r", "c")] + ([x for x in n if x == "q"] if tag.endswith("two") else [])
             if bad:
                 f.append("records %s of the cancelled trace were delivered: cancel() was called on a thread whose queue was full, "
                          "the root finished on another thread and its commit overtook the parked cancel" % bad)
@@ -342,6 +351,10 @@ def run(v, tier, seed, replay):
                         % (o_progs[ci][k] if k < len(o_progs[ci]) else "<end>", seqrun.strip_times(o_impl[ci][k])[:200] if k < len(o_impl[ci]) else None,
                            seqrun.strip_times(o_model[ci][k])[:200] if k < len(o_model[ci]) else None),
                         {"program": o_progs[ci], "line": k, "mismatching_programs": len(o_mism)}, found_input=False, tag="corr-overload")
+
+    # a cancel parked on its thread while the root finishes elsewhere (D21): the signal is not reordered against the commit
+    if not replay and ok and not v.violations:
+        run_scenarios(v, {"cancel-parked-%s" % k: sc_cancel_parked_elsewhere(k) for k in PARKED_VARIANTS}, with_model=True, jobs=6)
 
     for ci, bad in fails[:3]:
         v.violation(bad, {"ops": cases[ci], "implementation": impl[ci], "model": model[ci] if model else None, "how_to_replay": "./check C09 --replay <this file>"})
